@@ -6,50 +6,81 @@
 From Coq Require Import List String Bool.
 Require Import Py ListsGen AlgebraGen AlgebraSpec AlgebraSound.
 
-(* wf is an invariant on terms (AlgebraSpec.v): the primitives are specified on well-formed
-   arguments only and keep it; the algebra keeps it too (wfc = both term lists well-formed) *)
-Theorem C05_compose : forall (D : Domain) (B : Type) (dt : term -> B -> Prop) (wf : term -> Prop),
-  DomainSpec B dt wf ->
+(* wf is an invariant on terms and pv an admissibility predicate on variable names (AlgebraSpec.v):
+   the primitives are specified on well-formed terms (and, for the eliminations, duplicate-free lists
+   of admissible variables) only; the algebra keeps the invariant (wfc = both term lists well-formed)
+   and only eliminates such lists when the operands' interfaces are duplicate-free and admissible
+   (iface_ok).  RefinesSpec (soundness of the domain's refinement test) is a separate hypothesis,
+   needed only by the operations that call it. *)
+Theorem C05_compose : forall (D : Domain) (B : Type) (dt : term -> B -> Prop) (wf : term -> Prop) (pv : var -> Prop),
+  DomainSpec B dt wf pv ->
   forall c1 c2 keep sp od c st, wfc wf c1 -> wfc wf c2 ->
+  iface_ok pv c1 -> iface_ok pv c2 -> NoDup (opt_list keep) ->
   IoContract_compose_tactics c1 c2 keep sp od = inl (c, st) ->
   wfc wf c /\ compose_obligation B dt c1 c2 c.
 Proof. exact @compose_sound. Qed.
 Print Assumptions C05_compose.
 
-Theorem C05_compose_simple : forall (D : Domain) (B : Type) (dt : term -> B -> Prop) (wf : term -> Prop),
-  DomainSpec B dt wf ->
+Theorem C05_compose_simple : forall (D : Domain) (B : Type) (dt : term -> B -> Prop) (wf : term -> Prop) (pv : var -> Prop),
+  DomainSpec B dt wf pv ->
   forall c1 c2 keep sp c, wfc wf c1 -> wfc wf c2 ->
+  iface_ok pv c1 -> iface_ok pv c2 -> NoDup (opt_list keep) ->
   IoContract_compose c1 c2 keep sp = inl c ->
   wfc wf c /\ compose_obligation B dt c1 c2 c.
 Proof. exact @compose_sound_simple. Qed.
 Print Assumptions C05_compose_simple.
 
-Theorem C05_quotient : forall (D : Domain) (B : Type) (dt : term -> B -> Prop) (wf : term -> Prop),
-  DomainSpec B dt wf ->
+(* the quotient asks the refinement test once; pointwise, only that answer matters *)
+Theorem C05_quotient_pointwise : forall (D : Domain) (B : Type) (dt : term -> B -> Prop) (wf : term -> Prop) (pv : var -> Prop),
+  DomainSpec B dt wf pv ->
   forall c c1 add sp od q st, wfc wf c -> wfc wf c1 ->
+  iface_ok pv c -> iface_ok pv c1 ->
+  IoContract_quotient_tactics c c1 add sp od = inl (q, st) ->
+  wfc wf q /\
+  forall b, (p_refines (c_a c) (c_a c1) = inl true -> den B dt (c_a c) b -> den B dt (c_a c1) b) ->
+            den B dt (c_a c) b -> honours B dt c1 b -> honours B dt q b ->
+            den B dt (c_a c1) b /\ den B dt (c_a q) b /\ den B dt (c_g c) b.
+Proof. exact @quotient_sound_pointwise. Qed.
+Print Assumptions C05_quotient_pointwise.
+
+Theorem C05_quotient : forall (D : Domain) (B : Type) (dt : term -> B -> Prop) (wf : term -> Prop) (pv : var -> Prop),
+  DomainSpec B dt wf pv -> RefinesSpec B dt wf ->
+  forall c c1 add sp od q st, wfc wf c -> wfc wf c1 ->
+  iface_ok pv c -> iface_ok pv c1 ->
   IoContract_quotient_tactics c c1 add sp od = inl (q, st) ->
   wfc wf q /\ quotient_obligation B dt c c1 q.
 Proof. exact @quotient_sound. Qed.
 Print Assumptions C05_quotient.
 
-Theorem C05_quotient_simple : forall (D : Domain) (B : Type) (dt : term -> B -> Prop) (wf : term -> Prop),
-  DomainSpec B dt wf ->
+Theorem C05_quotient_refines_false : forall (D : Domain) (B : Type) (dt : term -> B -> Prop) (wf : term -> Prop) (pv : var -> Prop),
+  DomainSpec B dt wf pv ->
+  forall c c1 add sp od q st, wfc wf c -> wfc wf c1 ->
+  iface_ok pv c -> iface_ok pv c1 ->
+  p_refines (c_a c) (c_a c1) <> inl true ->
+  IoContract_quotient_tactics c c1 add sp od = inl (q, st) ->
+  wfc wf q /\ quotient_obligation B dt c c1 q.
+Proof. exact @quotient_sound_refines_false. Qed.
+Print Assumptions C05_quotient_refines_false.
+
+Theorem C05_quotient_simple : forall (D : Domain) (B : Type) (dt : term -> B -> Prop) (wf : term -> Prop) (pv : var -> Prop),
+  DomainSpec B dt wf pv -> RefinesSpec B dt wf ->
   forall c c1 add sp q, wfc wf c -> wfc wf c1 ->
+  iface_ok pv c -> iface_ok pv c1 ->
   IoContract_quotient c c1 add sp = inl q ->
   wfc wf q /\ quotient_obligation B dt c c1 q.
 Proof. exact @quotient_sound_simple. Qed.
 Print Assumptions C05_quotient_simple.
 
-Theorem C05_merge : forall (D : Domain) (B : Type) (dt : term -> B -> Prop) (wf : term -> Prop),
-  DomainSpec B dt wf ->
+Theorem C05_merge : forall (D : Domain) (B : Type) (dt : term -> B -> Prop) (wf : term -> Prop) (pv : var -> Prop),
+  DomainSpec B dt wf pv ->
   forall c1 c2 m, wfc wf c1 -> wfc wf c2 ->
   IoContract_merge c1 c2 = inl m ->
   wfc wf m /\ merge_obligation B dt c1 c2 m.
 Proof. exact @merge_exact. Qed.
 Print Assumptions C05_merge.
 
-Theorem C05_refines : forall (D : Domain) (B : Type) (dt : term -> B -> Prop) (wf : term -> Prop),
-  DomainSpec B dt wf ->
+Theorem C05_refines : forall (D : Domain) (B : Type) (dt : term -> B -> Prop) (wf : term -> Prop) (pv : var -> Prop),
+  DomainSpec B dt wf pv -> RefinesSpec B dt wf ->
   forall c1 c2, wfc wf c1 -> wfc wf c2 ->
   IoContract_refines c1 c2 = inl true ->
   (forall b, den B dt (c_a c2) b -> den B dt (c_a c1) b) /\
